@@ -406,6 +406,42 @@ def multi_output(rng, count):
     return out
 
 
+def inputless(rng, count):
+    """structural blocks WITHOUT input ports (free-running counters, pattern generators): the first column of instances reads
+    wires driven from later columns"""
+    import py4hw
+    out = []
+    with quiet():
+        for k in range(count):
+            hw = py4hw.HWSystem()
+
+            class Blk(py4hw.Logic):
+                def __init__(self, parent, name):
+                    super().__init__(parent, name)
+            blk = Blk(hw, 'blk')
+            w = 4
+            loops = rng.randint(1, 2)
+            last = None
+            for j in range(loops):
+                one, d, q = blk.wire('one%d' % j, w), blk.wire('d%d' % j, w), blk.wire('q%d' % j, w)
+                py4hw.Constant(blk, 'k%d' % j, rng.choice([1, 3]), one)
+                src = q
+                for i in range(rng.randint(0, 2)):
+                    nxt = blk.wire('n%d_%d' % (j, i), w)
+                    py4hw.Not(blk, 'n%d_%d' % (j, i), src, nxt)
+                    src = nxt
+                if last is not None and rng.random() < 0.5:
+                    t = blk.wire('x%d' % j, w)
+                    py4hw.Xor2(blk, 'x%d' % j, src, last, t)
+                    src = t
+                py4hw.Add(blk, 'add%d' % j, src, one, d)
+                py4hw.Reg(blk, 'reg%d' % j, d, q)
+                blk.addOut('q%d' % j, q)
+                last = q
+            out.append(({'name': 'no input ports: %d counter loop(s) #%d' % (loops, k), 'class': 'inputless'}, blk))
+    return out
+
+
 # netlists that once exposed a defect (see known_findings.json): always part of the check, whatever TLC samples
 REGRESSIONS = [
     [["And2", "And2", "Reg"], [[1, 5], [3, 3], [4]], [[], [], [0, 0, 0]]],        # same wire on two pins of the sink, backward edge
@@ -436,6 +472,7 @@ def check(run):
         blocks += layered(rng, 150)
         blocks += bypass_feedback(rng, 40)
         blocks += multi_output(rng, 40)
+        blocks += inputless(rng, 20)
     else:
         blocks = tlc_netlists(run, 3, ['Reg', 'RegE', 'And2', 'Not', 'Mux2'], 4000, 1)
         blocks += library_blocks(rng, (1, 2, 3, 4), 0.6)
@@ -443,6 +480,7 @@ def check(run):
         blocks += layered(rng, 5000)
         blocks += bypass_feedback(rng, 400)
         blocks += multi_output(rng, 600)
+        blocks += inputless(rng, 300)
     blocks += regression_netlists()
     collect(run, blocks, cases, metas)
     if not cases:
